@@ -110,7 +110,7 @@ var containerTags = []string{"textarea", "title", "pre", "option", "td", "li", "
 // element, no attribute) and the canary are asserted for them.
 var rawTextTags = map[string]bool{"xmp": true, "iframe": true, "noembed": true, "noframes": true}
 
-var sinks = []string{"in:textarea", "in:title", "in:pre", "in:option", "in:td", "in:li", "in:button", "in:h1", "in:a", "in:label", "in:code", "in:summary", "in:noscript", "in:xmp", "in:iframe", "in:noembed", "in:noframes", "nsattr", "pretext", "prevtext", "preattr", "prebound", "boundmustache", "boundmustacheclass", "vtext:xmp", "vtext:iframe", "vtext:noembed", "vtext:noframes", "vtext:textarea", "vtext:title", "vtext:noscript", "elsefor", "elseforattr", "elseiffor", "text", "vtext", "attr", "bound", "vbind", "class", "style", "loop", "loopattr", "loopchild", "incstatic", "incbound", "incattr", "inctplroot", "inctplrootattr", "slotinc", "slotincplain", "slotprop", "layout", "layoutattr", "ifself", "elseself"}
+var sinks = []string{"in:textarea", "in:title", "in:pre", "in:option", "in:td", "in:li", "in:button", "in:h1", "in:a", "in:label", "in:code", "in:summary", "in:noscript", "in:xmp", "in:iframe", "in:noembed", "in:noframes", "nsattr", "pretext", "prevtext", "preattr", "prebound", "boundmustache", "boundmustacheclass", "classmix", "stylemix", "stylemixstr", "twotext", "twoattr", "twoloop", "vtext:xmp", "vtext:iframe", "vtext:noembed", "vtext:noframes", "vtext:textarea", "vtext:title", "vtext:noscript", "elsefor", "elseforattr", "elseiffor", "text", "vtext", "attr", "bound", "vbind", "class", "style", "loop", "loopattr", "loopchild", "incstatic", "incbound", "incattr", "inctplroot", "inctplrootattr", "slotinc", "slotincplain", "slotprop", "layout", "layoutattr", "ifself", "elseself"}
 var encs = []string{"bare", "if", "else", "tplif", "nested", "loopchild", "elseif"}
 
 // tokens: the hostile alphabet. The first coreN are enumerated exhaustively.
@@ -120,7 +120,7 @@ var tokens = []string{
 	` :x="secret"`, ` v-html="secret"`, "x", "/", "\\", "\n", "&gt;", "&apos;", "<img src=x onerror=a>", "{{ secret + 1 }}", "]]>", "<![CDATA[",
 	"</textarea>", "</title>", "</pre>", "</option>", "</select>", "</td>", "</table>", "</li>", "</button>", "</h1>", "</a>", "</div>", "</style>", "</template>", "<p>", "<a href=x>", "<td>", "<plaintext>",
 	"{}", "[]", `{"a":1}`, `[1,"<b>"]`, "{", "[", "null", "true", "0",
-	"{k: secret}", "{secret: yes}", "{ 'a b': secret }", "{{ secret }", "secret", "secret | upper", "yes ? secret : 1",
+	"{{ w2 }}", "{{w2}}", "{{ w2 | upper }}", "{k: secret}", "{secret: yes}", "{ 'a b': secret }", "{{ secret }", "secret", "secret | upper", "yes ? secret : 1",
 }
 
 const coreN = 14
@@ -151,6 +151,7 @@ type program struct {
 	jsonish bool // static include prop: values starting with { or [ are decoded (documented)
 	multi   bool // the sink occurs several times: only parse-equality and the canary are asserted
 	rawish  bool // raw text element: only parse-equality and the canary are asserted
+	suf     string // static text that follows the value at the sink (after evaluation of its own mustaches)
 }
 
 func build(c Case) program {
@@ -207,6 +208,22 @@ func buildSink(c Case, n nb) program {
 		return program{tpl: wrap(c.Enc, `<p data-m="s" :title="{{ v }}" v-bind:lang="x{{ v }}">x</p>`), attr: "title"}
 	case "boundmustacheclass":
 		return program{tpl: wrap(c.Enc, `<p data-m="s" class="st" :class="{{ v }}">x</p>`), attr: "class"}
+	case "classmix":
+		// a static class / style written with a mustache next to a bound one: the merged value
+		// holds data and must not be interpolated (again)
+		return program{tpl: wrap(c.Enc, `<p data-m="s" class="st b-{{ w2 }}" :class="v">x</p>`), attr: "class"}
+	case "stylemix":
+		return program{tpl: wrap(c.Enc, `<p data-m="s" style="color: {{ w2 }};" :style="{background: v}">x</p>`), attr: "style", rawish: true}
+	case "stylemixstr":
+		return program{tpl: wrap(c.Enc, `<p data-m="s" style="color: {{ w2 }}; margin: 0" :style="v">x</p>`), attr: "style", rawish: true}
+	case "twotext":
+		// several mustaches in one text run / attribute value: a value that spells a later
+		// mustache of the same string stays where it is, and the later one is still evaluated
+		return program{tpl: wrap(c.Enc, `<p data-m="s">`+n.LS+`{{ v }}`+n.RS+` {{ w2 }}|{{w2}}|{{ w2 | upper }}</p>`), useNb: true, suf: " zw|zw|ZW"}
+	case "twoattr":
+		return program{tpl: wrap(c.Enc, `<p data-m="s" title="`+n.LS+`{{ v }}`+n.RS+`-{{ w2 }}|{{w2}}|{{ w2 | upper }}" lang="en">x</p>`), attr: "title", useNb: true, suf: "-zw|zw|ZW"}
+	case "twoloop":
+		return program{tpl: wrap(c.Enc, `<ul><li v-for="i in items" data-m="s">{{ i }} {{ w2 }}|{{w2}}</li></ul>`), suf: " zw|zw"}
 	case "elsefor":
 		// the root of a loop that is itself the chosen v-else / v-else-if member of a chain
 		return program{tpl: wrap(c.Enc, `<ul><li v-if="no">n</li><li v-else v-for="i in items" data-m="s" :title="i">{{ i }}</li></ul>`), attr: "title"}
@@ -306,7 +323,7 @@ func dataC(carrier, v string) map[string]any {
 	x, _ := carry(carrier, v)
 	return map[string]any{
 		"v": x, "secret": canary, "yes": true, "no": false, "one": []int{1},
-		"items": []any{x}, "rows": []int{1, 2, 3},
+		"items": []any{x}, "rows": []int{1, 2, 3}, "w2": "zw",
 	}
 }
 
@@ -413,7 +430,7 @@ func check(c Case) error {
 		return nil // documented: JSON-looking static props are decoded; only skeleton + canary apply
 	}
 	if p.attr == "" {
-		if got, exp := collapse(ms[0].Text), collapse(l+shown+r); got != exp {
+		if got, exp := collapse(ms[0].Text), collapse(l+shown+r+p.suf); got != exp {
 			return fmt.Errorf("text run at the sink is %q, want neighbours+value %q\noutput: %s", got, exp, out)
 		}
 		return nil
@@ -425,8 +442,8 @@ func check(c Case) error {
 			return fmt.Errorf("class attribute is %q, want static class followed by the value %q", got, c.Value)
 		}
 	default:
-		if collapse(got) != collapse(l+shown+r) {
-			return fmt.Errorf("attribute %s at the sink is %q, want neighbours+value %q\noutput: %s", p.attr, got, l+shown+r, out)
+		if collapse(got) != collapse(l+shown+r+p.suf) {
+			return fmt.Errorf("attribute %s at the sink is %q, want neighbours+value %q\noutput: %s", p.attr, got, l+shown+r+p.suf, out)
 		}
 	}
 	return nil
